@@ -686,6 +686,21 @@ fn extract<'tcx>(tcx: TyCtxt<'tcx>, krate: &str, ctypes: &[String]) -> String {
                         Ok(b) => f.set("mir", b),
                         Err(_) => f.set("mir_error", J::Bool(true)),
                     }
+                    // promoted constants (`&(LO..=HI)`, `&CONST[..]`): small bodies that compute the value
+                    let pr = std::panic::catch_unwind(std::panic::AssertUnwindSafe(|| {
+                        let proms = tcx.promoted_mir(did);
+                        let mut arr: Vec<J> = Vec::new();
+                        for (i, b) in proms.iter_enumerated() {
+                            let mut o = J::obj();
+                            o.set("idx", J::s(&format!("{}", i.as_usize())));
+                            o.set("mir", body_j(tcx, ldid, b));
+                            arr.push(o);
+                        }
+                        J::Arr(arr)
+                    }));
+                    if let Ok(a) = pr {
+                        f.set("promoted", a);
+                    }
                 }
                 funcs.push(f);
             }
